@@ -157,3 +157,22 @@ def check_trait_by_scheme(ctx, rule, P, f, method_names):
                 n += 1
                 ctx.ob(rule, "%s->%s::%s@%s" % (f.key, c["trait"], c["name"], V), SCHEME_TRAITS[c["trait"]] == V, "with %s the wrapper calls %s::%s (scheme %s)" % (", ".join("%s%s=%s" % (a, b, v) for (a, b), v in sorted(assume.items())), c["trait"], c["name"], SCHEME_TRAITS[c["trait"]]), where=where(f, s.bb))
     return n
+
+
+def check_variant_preserved(ctx, rule, P, f, out_adt, min_variants=3):
+    """Under "input variant = V" every `out_adt` value built into the function's result has variant V (looking through
+    local mapper functions), and one is built."""
+    from .common import where
+
+    n = 0
+    for assume in assumptions(P, f):
+        V = variant_of(assume)
+        if not assume or V is None:
+            continue
+        ev = evaluate(f, assume)
+        r = strip_sites(spec_inline(P, ev, ev.ret, 2))
+        built = sorted({t.a[0][2] for t in subterms(r) if t.op == "agg" and t.a[0][0] == "adt" and t.a[0][1] == out_adt})
+        n += 1 if built == [V] else 0
+        ctx.ob(rule, "%s@%s" % (f.key, V), built in ([V], []), "with %s the result is built as %s::%s (want exactly %s)" % (", ".join("%s%s=%s" % (a, b, v) for (a, b), v in sorted(assume.items())), out_adt, "/".join(built) if built else "<none: refused>", V), where=where(f))
+    ctx.floor(rule, "input variants of %s that yield a result of their own variant" % f.key, n, min_variants)
+    return n
